@@ -370,6 +370,9 @@ def rule_limit(ctx, M, method, cname, rule):
         rets = flow.returned_values(bi)
         ok = bool(aw) and all(flow.is_payload(t, aw[0].site.block, "Ready") for _, _, _, t in rets)
     ctx.check(ok, rule, b.def_, "%s = self.drive(%s::new(self.concurrency_limit(), f)).await" % (method, cname), site=b.span)
+    if method == "for_each":
+        from . import c15
+        c15.rule_adapter_ctors(ctx, M, rule, only=("Limit",))
     # sibling agreement
     for adt, e in sorted(M.costreams.items()):
         cb = e.get("concurrency_limit")
